@@ -1217,6 +1217,11 @@ func init() {
 	registerExtra("C18", func(c *Ctx, r *Report) { pooledResetComplete(c, r, "C18-R10") })
 	registerExtra("C13", func(c *Ctx, r *Report) { pooledResetComplete(c, r, "C13-R7") })
 	registerExtra("C15", func(c *Ctx, r *Report) { pooledResetComplete(c, r, "C15-R7") })
+	registerExtra("C11", func(c *Ctx, r *Report) {
+		pooledResetComplete(c, r, "C11-R15")
+		addMutants(Mutant{Prop: "C11", Name: "pooled-error-context-keeps-its-label", File: "internal/adapter/proxy/olla/service.go", Rule: "C11-R15",
+			Old: "	e.context = \"\"\n	e.duration = 0\n", New: "	e.context = e.context[:len(e.context)]\n	e.duration = 0\n"})
+	})
 }
 
 func pooledResetComplete(c *Ctx, r *Report, rule string) {
@@ -1266,15 +1271,80 @@ func pooledResetComplete(c *Ctx, r *Report, rule string) {
 					continue
 				}
 				written := map[int]bool{}
+				// a field "reset" to what it held before is not reset: `*s = T{buf: s.buf}` / `s.list = s.list` keep the previous
+				// user's content unless the value is re-sliced to [:0] or emptied by a clear/Clear/Reset call in this method
+				cleared := map[ssa.Value]bool{}
+				eachInstr(rs, func(i2 ssa.Instruction) {
+					if call, ok := i2.(*ssa.Call); ok {
+						nm := describeCall(&call.Call).Name
+						if bi, isB := call.Call.Value.(*ssa.Builtin); isB {
+							nm = bi.Name()
+						}
+						if call.Call.IsInvoke() {
+							nm = call.Call.Method.Name()
+							cleared[call.Call.Value] = cleared[call.Call.Value] || nm == "Clear" || nm == "Reset"
+						}
+						if nm == "clear" || nm == "Reset" || nm == "Clear" || nm == "Truncate" {
+							for _, a := range call.Call.Args {
+								cleared[a] = true
+							}
+						}
+					}
+				})
+				var carried func(v ssa.Value, field int, d int) bool
+				carried = func(v ssa.Value, field int, d int) bool {
+					v = stripConv(v)
+					if v == nil || d == 0 || cleared[v] {
+						return false
+					}
+					switch x := v.(type) {
+					case *ssa.UnOp:
+						fa, ok := x.X.(*ssa.FieldAddr)
+						return ok && x.Op == token.MUL && fa.X == ssa.Value(rs.Params[0]) && fa.Field == field
+					case *ssa.Slice:
+						if k, ok := x.High.(*ssa.Const); ok && k.Value != nil && k.Value.ExactString() == "0" {
+							return false
+						}
+						return carried(x.X, field, d-1)
+					case *ssa.Phi:
+						for _, e := range x.Edges {
+							if carried(e, field, d-1) {
+								return true
+							}
+						}
+					}
+					return false
+				}
+				keeps := map[int]bool{}
 				eachInstr(rs, func(i2 ssa.Instruction) {
 					switch x := i2.(type) {
 					case *ssa.Store:
 						if fa, ok := x.Addr.(*ssa.FieldAddr); ok && fa.X == ssa.Value(rs.Params[0]) {
-							written[fa.Field] = true
+							if carried(x.Val, fa.Field, 4) {
+								keeps[fa.Field] = true
+							} else {
+								written[fa.Field] = true
+							}
 						}
 						if x.Addr == ssa.Value(rs.Params[0]) { // *s = T{}
 							for i := 0; i < st.NumFields(); i++ {
 								written[i] = true
+							}
+							// … except what the literal takes over from the receiver as it is
+							if ld, ok := x.Val.(*ssa.UnOp); ok {
+								if al, ok := ld.X.(*ssa.Alloc); ok {
+									for _, ref := range *al.Referrers() {
+										fa, ok := ref.(*ssa.FieldAddr)
+										if !ok {
+											continue
+										}
+										for _, r2 := range *fa.Referrers() {
+											if s2, ok := r2.(*ssa.Store); ok && s2.Addr == ssa.Value(fa) && carried(s2.Val, fa.Field, 4) {
+												keeps[fa.Field] = true
+											}
+										}
+									}
+								}
 							}
 						}
 					case *ssa.Call:
@@ -1297,7 +1367,7 @@ func pooledResetComplete(c *Ctx, r *Report, rule string) {
 				})
 				var missing []string
 				for i := 0; i < st.NumFields(); i++ {
-					if !written[i] {
+					if !written[i] || keeps[i] {
 						missing = append(missing, st.Field(i).Name())
 					}
 				}
